@@ -22,6 +22,7 @@
 #include "celeritas/user/ActionDiagnostic.hh"
 #include "celeritas/user/StepCollector.hh"
 #include "celeritas/user/StepData.hh"
+#include "celeritas/user/SimpleCalo.hh"
 #include "celeritas/user/StepDiagnostic.hh"
 #include "celeritas/user/StepInterface.hh"
 
@@ -240,6 +241,9 @@ int main(int argc, char** argv)
     size_type slots = script.value("slots", 8);
     bool diag = script.value("diag", false);
     bool status_checker = script.value("status_checker", false);
+    // calo: the step collector holds ONLY a SimpleCalo (two detector volumes); no per-step streams are
+    // recorded, the per-detector totals over all streams are compared with the serial phase
+    bool use_calo = script.value("calo", false);
     int phaseidx = 0;
     for (auto const& phase : script["phases"])
     {
@@ -272,7 +276,12 @@ int main(int argc, char** argv)
                 sdiag = StepDiagnostic::make_and_insert(*prob.core, 20);
             }
             auto coll = std::make_shared<Collector>(prob.action_reg.get(), nstreams);
-            auto sc = StepCollector::make_and_insert(*prob.core, {coll});
+            std::shared_ptr<SimpleCalo> calo;
+            if (use_calo)
+                calo = std::make_shared<SimpleCalo>(std::vector<Label>{Label{"inner"}, Label{"world"}}, *prob.geo,
+                                                    static_cast<size_type>(nstreams));
+            auto sc = use_calo ? StepCollector::make_and_insert(*prob.core, {calo})
+                               : StepCollector::make_and_insert(*prob.core, {coll});
             emit({{"e", "Run"}, {"run", phaseidx}, {"cfg", {{"streams", nstreams}, {"mode", mode}, {"diag", diag},
                                                             {"status_checker", status_checker}}},
                   {"ops", phase["assign"]}});
@@ -313,6 +322,8 @@ int main(int argc, char** argv)
                             emit({{"e", "Hang"}, {"run", phaseidx}, {"ev", ev}});
                             continue;
                         }
+                        if (use_calo)
+                            continue;
                         std::sort(coll->steps[t].begin(), coll->steps[t].end());
                         json stream = json::array();
                         for (auto const& s : coll->steps[t])
@@ -355,21 +366,39 @@ int main(int argc, char** argv)
                 for (auto& th : threads)
                     th.join();
             }
-            if (adiag)
+            if (adiag || calo)
             {
                 // totals over all streams: a function of the set of events transported only
                 json a = json::array();
-                auto counts = adiag->calc_actions();
-                for (size_type p = 0; p < counts.size(); ++p)
-                    for (size_type ai = 0; ai < counts[p].size(); ++ai)
-                        if (counts[p][ai] > 0)
-                            a.push_back({int(p), label_tok(std::string(prob.action_reg->id_to_label(ActionId{ai}))),
-                                         int(counts[p][ai])});
+                if (adiag)
+                {
+                    auto counts = adiag->calc_actions();
+                    for (size_type p = 0; p < counts.size(); ++p)
+                        for (size_type ai = 0; ai < counts[p].size(); ++ai)
+                            if (counts[p][ai] > 0)
+                                a.push_back({int(p), label_tok(std::string(prob.action_reg->id_to_label(ActionId{ai}))),
+                                             int(counts[p][ai])});
+                    // StepDiagnostic: tracks per (particle, number-of-steps bin), tagged 1000 + particle
+                    auto steps = sdiag->calc_steps();
+                    for (size_type p = 0; p < steps.size(); ++p)
+                        for (size_type b = 0; b < steps[p].size(); ++b)
+                            if (steps[p][b] > 0)
+                                a.push_back({1000 + int(p), int(b), int(steps[p][b])});
+                }
+                // SimpleCalo: per-detector totals in two staggered fixed-point roundings (quantum 2^-16 MeV);
+                // sums taken in a different order agree in at least one of them
+                json c = json::array();
+                if (calo)
+                {
+                    auto tot = calo->calc_total_energy_deposition();
+                    for (size_type d = 0; d < tot.size(); ++d)
+                        c.push_back({int(d), int(std::llround(tot[d] * 65536.0)), int(std::llround(tot[d] * 65536.0 + 0.5))});
+                }
                 std::vector<int> evs;
                 for (auto const& v : assign)
                     evs.insert(evs.end(), v.begin(), v.end());
                 std::sort(evs.begin(), evs.end());
-                emit({{"e", "Tally"}, {"run", phaseidx}, {"events", evs}, {"actions", a}});
+                emit({{"e", "Tally"}, {"run", phaseidx}, {"events", evs}, {"actions", a}, {"calo", c}});
             }
             if (mode == "baton")
                 emit({{"e", "Schedule"}, {"run", phaseidx}, {"calls", baton.trace().size()}});
